@@ -366,14 +366,11 @@ def rule_cursors(ctx, db):
             if not ws:
                 continue
             late = [bb for bb, t in calls(f, r"BufWriter::<W>::flush_if_needed$") if any(f.cfg.dominates(w, bb) for w in ws)]
-            # the awaited result of a late flush must not reach the return value through `?`
+            # the awaited result of a late flush must not reach the value the call returns
+            ret_locs, ret_calls, _rp = data_deps(f, 0)
             bad = False
-            for bb, t in calls(f, r"Try::branch$|FromResidual.*::from_residual$"):
-                pl = op_place(t["args"][0]) if t.get("args") else None
-                if pl is None:
-                    continue
-                locs, cr, _pl = data_deps(f, pl["l"])
-                if any(f.cfg.dominates(w, bb) for w in ws) and any(call_matches(ct, POLL) and any(f.cfg.dominates(lb, cb) for lb in late) for cb, ct in cr):
+            for cb, ct in ret_calls:
+                if call_matches(ct, POLL) and any(f.cfg.dominates(lb, cb) for lb in late):
                     bad = True
             ctx.ob("R5", "bufwriter-write-cannot-fail-after-accepting:" + m, bool(late) and not bad,
                    "after the bytes were copied into the buffer the trailing flush cannot turn the call into an error (a retry "
